@@ -288,11 +288,47 @@ func gRandCfg(r *vRand) gGenCfg {
 	}
 	if hasS && r.chance(1, 4) {
 		c.sr = []string{"drop", "rep", "rep2", "app"}[r.intn(4)]
+	} else if hasS && r.chance(1, 4) {
+		c.sr = gPinnedRule(r)
 	}
 	if r.chance(1, 40) {
 		c.pmin, c.pmax, c.busy = 6000, 5000, "" // constructor refuses: PortMax < PortMin
 	}
 	return c
+}
+
+// gPinnedRule: a srflx rewrite rule pinned to the local wildcard address with 1..3 external addresses:
+// IPv4 and IPv6 externals mixed, and a location-tracked (IPv6 link-local) one in first / middle / last
+// position (the socket selected for it must be closed, the others become candidates).
+func gPinnedRule(r *vRand) string {
+	pool := []string{"x4.80", "x4.81", "x6.80", "k6.1", "k6.2", "x4.82"}
+	n := 1 + r.intn(3)
+	var exts []string
+	used := map[string]bool{}
+	for len(exts) < n {
+		e := pool[r.intn(len(pool))]
+		if !used[e] {
+			used[e] = true
+			exts = append(exts, e)
+		}
+	}
+	if r.chance(1, 2) { // make sure a filtered address is there, at a random position
+		exts[r.intn(len(exts))] = "k6.1"
+		seen := map[string]bool{}
+		var out []string
+		for _, e := range exts {
+			if !seen[e] {
+				seen[e] = true
+				out = append(out, e)
+			}
+		}
+		exts = out
+	}
+	mode := "pin"
+	if r.chance(1, 3) {
+		mode = "pina"
+	}
+	return mode + ":" + strings.Join(exts, "+")
 }
 
 func gField(line, key string) string {
@@ -437,6 +473,25 @@ func gGen(o *vOut, r *vRand, thorough bool, args []string, emit func(op string) 
 				emit("gather " + op)
 			}
 			emit("gather end")
+		}
+	}
+	// 1c. srflx rules pinned to the wildcard address: the location-tracked external first / middle / last /
+	// alone, mixed families, with Restart and Close in between
+	for _, exts := range []string{"k6.1", "k6.1+x4.80", "x4.80+k6.1", "x4.80+k6.1+x4.81", "k6.1+k6.2+x4.80", "x4.80+x4.81+k6.1",
+		"k6.1+x6.80", "x6.80+x4.80", "x4.80+x6.80+k6.1", "x4.80", "k6.1+k6.2"} {
+		for _, mode := range []string{"pin", "pina"} {
+			for _, nt := range []string{"", "u4+u6", "u4"} {
+				c := gGenCfg{ct: "s", nt: nt, sr: mode + ":" + exts, ifaces: gIfaceTables[1]}
+				if mode == "pina" {
+					c.su = 1
+				}
+				emit("gather new " + c.String() + " " + c.ifaces)
+				emit("gather gather")
+				emit("gather restart")
+				emit("gather gather2")
+				emit("gather close")
+				emit("gather end")
+			}
 		}
 	}
 	// 2. port ranges: single port, exhausted, two ports with one busy, duplicates of one address
